@@ -61,6 +61,8 @@ struct Model {
 };
 // two models equal (names included); on difference 'why' explains the first one
 bool model_equal(const Model &a, const Model &b, std::string *why, bool names = true);
+// C03's "moderate bit-size": every finite datum within [1e-30, 1e30] and at most 512 bits (see qsx_core.cpp)
+bool model_is_moderate(const Model &m);
 
 // ---------------------------------------------------------------- generic op / case
 struct Op {
